@@ -263,9 +263,14 @@ fn fill_banks(
         if let (Some(size), Some(offset)) =
             (bankdef.size, bankdef.output_offset)
         {
+            if size == 0
+            {
+                continue;
+            }
+
             let highest_position = offset + size - 1;
 
-            if output.len() < highest_position
+            if output.len() <= highest_position
             {
                 output.write_bit(highest_position, false);
             }
